@@ -508,6 +508,38 @@ def run(ctx):
           and isinstance(n.targets[0].slice, ast.Constant) and n.targets[0].slice.value == 'enable_tls_client_auth']
     ctx.check(len(dv) == 1 and isinstance(dv[0], ast.Constant) and dv[0].value is True, 'C17.R6', 'KmipServerConfig.__init__|default', '%s:%s' % (CONFIG, cinit.lineno),
               'default setting True', 'the default for enable_tls_client_auth is not True')
+    # -- R8 the authentication settings are read-only for the sessions
+    ctx.rule('C17.R8', 'a session only reads the authentication settings it was handed (one object for every connection of the server): no method of KmipSession stores into, or calls a mutating method on, anything taken out of self._auth_settings - a session that switches a plugin off or rewrites its URL after a fault (an unreachable directory service) changes how every later connection is authenticated: with no enabled plugin left the certificate common name alone is accepted and the group list is lost (lifted from C10.R3)')
+    from .c10 import session_writes_to_shared_structures
+    w8 = [x for x in session_writes_to_shared_structures(src) if x[2] == '_auth_settings']
+    for q8, what8, fld8, ln8 in w8:
+        ctx.fail('C17.R8', '%s|%s' % (q8, what8), '%s:%s %s' % (SESSION, ln8, q8), '%s, which comes out of self.%s: the change is seen by every later connection' % (what8, fld8))
+    if not w8:
+        ctx.ok('C17.R8', '%s KmipSession' % SESSION, 'no method of KmipSession writes to what it takes out of self._auth_settings')
+    # who calls the setter, and with what: a configuration file that does not mention the flag must leave the check on
+    n_set_calls = 0
+    for mname, mfn in sorted(__import__('pv.astutil', fromlist=['methods']).methods(cc).items()):
+        mg = None
+        for c in [x for x in walk_local(mfn) if isinstance(x, ast.Call) and is_self_attr(x.func) and x.func.attr == '_set_enable_tls_client_auth']:
+            n_set_calls += 1
+            a0 = c.args[0] if c.args else (c.keywords[0].value if c.keywords else None)
+            okc, whyc = False, 'the value %s' % (short(a0) if a0 is not None else '<none>')
+            if isinstance(a0, ast.Name) and a0.id in params(mfn):
+                okc = True
+            elif isinstance(a0, ast.Call) and isinstance(a0.func, ast.Attribute) and a0.func.attr in ('getboolean', 'get'):
+                fb = [k.value for k in a0.keywords if k.arg == 'fallback']
+                if fb:
+                    okc = isinstance(fb[0], ast.Constant) and (fb[0].value is True or fb[0].value is None)
+                    whyc = 'a fallback of %s for a file that does not mention the flag' % short(fb[0])
+                else:
+                    # no fallback: raises when the option is absent unless guarded by has_option - either way the default is not replaced
+                    okc = True
+            elif isinstance(a0, ast.Constant):
+                okc = a0.value is True or a0.value is None
+            ctx.check(okc, 'C17.R6', 'KmipServerConfig.%s|_set_enable_tls_client_auth(%s)' % (mname, short(a0)[:40] if a0 is not None else ''), '%s:%s KmipServerConfig.%s' % (CONFIG, c.lineno, mname),
+                      'the flag is set from the caller\'s value or from the option in the file; absent means on',
+                      '%s stores %s: a configuration that leaves enable_tls_client_auth out runs without the client-authentication extended-key-usage check, although the documented default is on' % (mname, whyc))
+    ctx.count('enable_tls_client_auth_setter_calls', n_set_calls, 2)
     # every [auth:*] section of the configuration file reaches the session: a plugin block that is dropped on the way (for whatever
     # reason) is a plugin that never vouches - and with none left the session falls back to the certificate's common name alone
     pas = get_method(cc, 'parse_auth_settings', optional=True)
